@@ -4,6 +4,9 @@ import SwcVerif.Model.Py
 `functools.reduce` without an initial value, `min` of a non-empty sequence.  Mathlib-free (linked into the driver). -/
 namespace Py
 
+-- (the slice definitions live in `Py.PF`: `Model/PyViews.lean` has its own, equivalent, formalisation of `slice.indices` under `Py`)
+namespace PF
+
 /-- a `slice(start, stop, step)` object whose three fields are `int` or `None` -/
 abbrev Slice := Option Int × Option Int × Option Int
 
@@ -34,6 +37,8 @@ def range3 (t : Int × Int × Int) : Option (List Int) :=
     some ((List.range ((stop - start + step - 1) / step).toNat).map fun (k : Nat) => start + (k : Int) * step)
   else
     some ((List.range ((start - stop + (-step) - 1) / (-step)).toNat).map fun (k : Nat) => start + (k : Int) * step)
+
+end PF
 
 namespace Set
 variable {α : Type} [DecidableEq α]
